@@ -227,7 +227,11 @@ def live_tree(c, rng, ext_types):
             if sub:
                 hot += [sub + "/index.html", sub + "/live.html"]
             # a link that is re-pointed while the server runs (the 'current -> releases/N' deploy): both targets keep existing
-            link_targets = [k for k in sorted(t.files) if k.count("/") == 1 and k.endswith(".txt") and not os.path.islink(t.abs(k))][:3]
+            link_targets = []
+            for vi, size in enumerate((1200, 1500, 700)):
+                name = "/live-release-%d.txt" % (vi + 1)
+                t.add_file(name, (("release %d " % (vi + 1)).encode() * 400)[:size])
+                link_targets.append(name)
             live_link = "/live-current.txt"
             if len(link_targets) >= 2:
                 os.symlink(os.path.basename(link_targets[0]), t.abs(live_link))
